@@ -86,6 +86,16 @@ fn extreme_programs() -> Vec<String> {
             v.push(format!("xs := [1, 2, 3]\ns := \"héllo\"\nr := 0\n{}", if t.contains(" = ") { t.replace('@', big) } else { format!("r = {}", t.replace('@', big)) }));
         }
     }
+    // Escapes next to multi-byte text and interpolation slots: every
+    // arrangement of (escape | raw multi-byte | ASCII) before, between and
+    // after two slots.
+    let atoms = ["\\xa1", "\\xe9", "\\xff", "\\x80", "\\x7f", "\\x41", "é", "日", "🙂", "Ž", "a", "\\n", "\\$", "\\\\", ""];
+    for (i, a) in atoms.iter().enumerate() {
+        for (j, b) in atoms.iter().enumerate() {
+            let c = atoms[(i * 3 + j * 5 + 1) % atoms.len()];
+            v.push(format!("name := \"Zoë\"\nprint($\"{a}${{name}}{b}${{name + \"{c}\"}}{c}\")\nprint($\"{a}{b}${{name}}\")\nprint(\"{a}{b}{c}\"->len())\nt := \"{b}{a}\"\nprint(t[0:1] == t[0])"));
+        }
+    }
     for e in [
         "s := \"é\"\nprint(s[0])", "s := \"é\"\nprint(s[0:1])", "s := \"日本\"\nfor [k, b] in s {\n    print(b)\n}", "s := \"日本\"\nfor [k, b] in s {\n    r := b + b\n}",
         "s := \"é\"\nr := {s[0]: 1}", "s := \"é\"\nr := $\"${s[0]}\"", "s := \"é\"\nr := s[0]->len()", "s := \"é\"\nxs := [1, 2]\nxs[0:2] = s\nprint(xs[0] == s[0])",
@@ -181,10 +191,13 @@ pub fn run(ctx: &Ctx) {
     ctx.judge_all(cases, Via::Cli, None);
     // (d) hostile random programs.
     let cfg = gen::GenCfg::hostile();
+    let mut big = gen::GenCfg::hostile();
+    big.big = true;
     let n = ctx.n(50_000, 2_000_000);
     let via = if ctx.tier == Tier::Quick { Via::Cli } else { Via::Fast };
     ctx.proptest_tapes("hostile", n, 700, via, None, |t| {
-        let prog = gen::gen_prog(t, &cfg);
+        let use_big = t.chance(1, 5);
+        let prog = gen::gen_prog(t, if use_big { &big } else { &cfg });
         let rr = interp::run(&prog);
         if let interp::Outcome::Discard(w) = &rr.outcome {
             ctx.exclude(w);
